@@ -633,7 +633,10 @@ class ReceiveDropped(ActorStep):
         ids, n = sym_ids(p, 1)
         payload = {'PullMessages': (S(mx, 'u16'), tx), 'AcknowledgeMessages': (Seq([ack_id(ctx, ids[0])], n, 'vec'), tx),
                    'ModifyDeadline': (Seq([mk(ctx, 'DeadlineModification', ack_id=ack_id(ctx, ids[0]), new_deadline=Enum('Option', 0, {}))], n, 'vec'), tx),
-                   'GetInfo': (tx,), 'GetStats': (tx,)}[self.variant]
+                   'GetInfo': (tx,), 'GetStats': (tx,), 'Delete': (tx,)}[self.variant]
+        if self.variant == 'Delete':
+            from props.C16 import default_reply
+            ctx.on_enqueue = default_reply
         req = Enum('SubscriptionRequest', idx, {idx: payload})
         p.receiver_dropped = True
         fn = ctx.fn('SubscriptionActor', 'receive')
@@ -645,8 +648,17 @@ class ReceiveDropped(ActorStep):
         ctx = ip.ctx
         st = res['st']
         f = actor_fields(ctx, st.cell.v)
-        out = [Claim('the failed reply was attempted (handler ran to the end)', any(e[0] == 'oneshot.send-failed' for e in res['log'])),
-               Claim('invariant I after', invariant_actor(ctx, st, st.cell.v))]
+        out = [Claim('invariant I after', invariant_actor(ctx, st, st.cell.v))]
+        if self.variant == 'Delete':
+            m2, s2 = tracker_parts(ctx, f['outstanding'])
+            mgr = fld(ctx, st.mstate.v, 'State', 'subscriptions', 'subscriptions/subscription_manager')
+            push = fld(ctx, st.pstate.v, 'PushSubscriptionsRegistryState', 'push_subscriptions')
+            out.append(Claim('an enqueued delete completes without its caller: deleted, unregistered, cleared, push unregistered',
+                             z3.And(f['deleted'], z3.Not(mgr.found(st.name)), f['backlog'].n == 0, m2.count() == 0, z3.Not(push.found(st.name)))))
+            out.append(Claim('consumers were told', any(e[0] == 'notify_waiters' and e[1] == 'messages_available' for e in res['log'])))
+            out.append(Cover('topic alive', st.topic_alive))
+            return out
+        out.append(Claim('the failed reply was attempted (handler ran to the end)', any(e[0] == 'oneshot.send-failed' for e in res['log'])))
         if self.variant != 'AcknowledgeMessages':
             out.append(Claim('no token lost or duplicated', conservation(ctx, st, st.cell.v)))
         else:
